@@ -8,6 +8,7 @@
   changes, each compared with the model and with a cold run).
 -/
 import ClairModel.Proofs.IndexerHist
+import ClairModel.Proofs.IndexerFetch
 import ClairModel.Proofs.StateToken
 
 namespace ClairModel.Props.C08
@@ -86,6 +87,35 @@ theorem scan_at_most_once (sem : Sem) (cfg0 : Cfg) (h0 : cfg0.scanners ≠ []) (
     ∀ x, x ∈ (Sm.run (step sem) { cfg := cfg0 } ops).scans → x ∈ (Sm.run (step sem) { cfg := cfg0 } ops).st.scannedLayer := by
   have h := scans_run sem ops { cfg := cfg0 } hff ⟨inv_empty sem, h0, List.nodup_nil, fun _ h => by cases h⟩
   exact ⟨h.scans.nodup, h.scans.marked⟩
+
+/-! ## The skip decisions are sound under any faults -/
+
+/-- checkManifest's per-scanner filter (any oracle): when it hands over to
+    FetchLayers, every scanner it dropped from the controller's list is
+    recorded as having scanned the manifest. -/
+theorem checkManifest_filter_sound (sem : Sem) (o : Oracle) (m : Manifest) (w : W) (c : Ctl)
+    (hok : (checkManifest o m w c).2.2.2 = none) (hnext : (checkManifest o m w c).2.2.1 = .fetchLayers)
+    (s : Scanner) (hs : s ∈ c.vs) :
+    s ∈ (checkManifest o m w c).2.1.vs ∨ (m, s) ∈ (checkManifest o m w c).1.st.scannedManifest := by
+  have sp := checkManifest_spec sem o m w c
+  rcases sp.ok hok with ⟨hn, _⟩ | ⟨_, _, _, _, _, _, hcov⟩
+  · rw [hn] at hnext; cases hnext
+  · rcases hcov s hs with h | h
+    · exact Or.inl h
+    · exact Or.inr (sp.step.sm ▸ h)
+
+/-- reduce / fetchLayers (any oracle): when fetchLayers returns without error,
+    every layer of the manifest that some configured scanner has not scanned
+    was handed to Realize — no scanner is ever given a layer that was skipped.
+    `hcov` is what `checkManifest_filter_sound` establishes. -/
+theorem fetch_covers_every_needed_layer (sem : Sem) (o : Oracle) (cfg : Cfg) (m : Manifest) (w : W) (c : Ctl)
+    (hi : Inv sem w.st) (hcov : ∀ s, s ∈ cfg.scanners → s ∈ c.vs ∨ (m, s) ∈ w.st.scannedManifest)
+    (hok : (fetchLayers o m w c).2.2.2 = none)
+    (l : Layer) (hl : l ∈ m) (s : Scanner) (hs : s ∈ cfg.scanners) (hun : (l, s) ∉ w.st.scannedLayer) :
+    l ∈ (fetchLayers o m w c).1.e.fetched := by
+  rcases hcov s hs with h | h
+  · exact fetchLayers_covers o m w c hok l hl ⟨s, h, hun⟩
+  · exact absurd (hi.manifestLayers m s h l hl) hun
 
 /-! ## What fails: the stored report is keyed by manifest only -/
 
